@@ -157,7 +157,7 @@ class ExprMixin:
             r = self.new_set(s)
             mem = s.get("set", r.t)
             for v in vs:
-                mem = z3.Store(mem, self.to_ref(s, v), z3.BoolVal(True))
+                mem = z3.Store(mem, v.t if v.kind == "int" else self.to_ref(s, v), z3.BoolVal(True))
             s.put("set", r.t, mem)
             return [(s, r)]
         return self.bind(self.eval_list(st, node.elts), f)
@@ -216,6 +216,9 @@ class ExprMixin:
                 return [(s, self.new_list(s, z3.Concat(s.get("list", a.t), s.get("list", b.t))))]
             if isinstance(node.op, ast.Add) and (a.kind == "str" or a.py == "opaque_str"):
                 return [(s, self.opaque_str(s))]
+            if isinstance(node.op, ast.BitOr) and a.kind == "ref" and b.kind == "ref" and a.py == "set" and b.py == "set":
+                x = z3.Int("x!un")
+                return [(s, self.new_set(s, z3.Lambda([x], z3.Or(z3.Select(s.get("set", a.t), x), z3.Select(s.get("set", b.t), x)))))]
             h = self.registry.binop_hook(self, s, node, a, b)
             if h is not None:
                 return h
